@@ -28,6 +28,19 @@ def build(rng, tier):
                 cases.append(engcheck.Case(pid, inst2, engcheck.std_history(inst2, pid, dup), {"inp": dup, "kind": "dup-input", "class": "F15"}))
                 inst3 = f"{pid}_{j}r"
                 cases.append(engcheck.Case(pid, inst3, engcheck.std_history(inst3, pid, inp, [f"eng run {inst3}", f"eng dump {inst3}"]), {"inp": inp, "kind": "rerun", "was": "F2"}))
+    # aggregation over LATTICE relations through a non-unique index (strict subset of the key columns bound): one row per key, also after
+    # rows were improved in place (serial mode; the theorems do not cover lattices + aggregation: tie only)
+    lat_list = engcheck.make_programs(rng.fork("c04lat"), 8 if tier == "quick" else 40, genf=gen.gen_agg_lat_program,
+                                      filt=lambda q: gen.lat_ok(q) and eng.stratifiable(q) and any(it[0] == "agg" for ru in q["rules"] for it in ru["body"]))
+    for i, p in enumerate(lat_list):
+        pid = f"al{i}"
+        progs[pid] = p
+        mods.append((pid, eng.rs_module(pid, p)))
+        for j in range(6 if tier == "quick" else 20):
+            inp = gen.gen_lat_input(rng.fork(f"{pid}i{j}"), p)
+            inp = {r: (rows if p["rels"][r].get("lat") else list(dict.fromkeys(rows))) for r, rows in inp.items()}
+            inst = f"{pid}_{j}"
+            cases.append(engcheck.Case(pid, inst, engcheck.std_history(inst, pid, inp), {"inp": inp, "kind": "agg-over-lattice"}))
     return progs, mods, cases
 
 
@@ -53,4 +66,5 @@ def check(tier, replay=None):
                                  build=build, oracle=oracle, known=known, what="compiled stratified programs with aggregation / negation",
                                  rule="generated relational cores plus aggregation rules (count, sum, min, max, not) at stratum depth 1-3, aggregated relation's "
                                       "columns bound by key variables / constants, wildcarded or aggregated in every mix; duplicate-free inputs; compared with "
-                                      "the model and the stratified naive oracle")
+                                      "the model and the stratified naive oracle; plus lattice programs (shortest-path / data-flow shapes) with aggregates over a lattice "
+                                      "through a non-unique index")
